@@ -1,6 +1,8 @@
 package mc
 
 import (
+	"crypto/sha256"
+	"encoding/binary"
 	"fmt"
 	"os"
 	"sort"
@@ -52,6 +54,7 @@ type Result struct {
 	DevBound    int
 	WallS       float64
 	HarnessErr  string
+	Digest      string // C19: digest over (state key, output hash) of all states in discovery order
 }
 
 type stateRec struct {
@@ -78,6 +81,9 @@ type Limits struct {
 	// LiveCap bounds the number of frontier states kept as live worlds (others are
 	// rebuilt by replay). Live states are still validated by replay on a sample.
 	LiveCap int
+	// Determinism turns the run into the C19 check: every state is rebuilt from
+	// scratch and its key and output hash must equal those obtained incrementally.
+	Determinism bool
 }
 
 // Replay builds a fresh world and applies the path; it returns the world and the
@@ -262,6 +268,7 @@ func BFS(sc *Scenario, mf MonitorFactory, lim Limits) *Result {
 	}
 	var harnessErr string
 	var hmu sync.Mutex
+	var detViol []*Found
 	sampleEvery := int64(1)
 	depth := 0
 	for len(frontier) > 0 {
@@ -306,11 +313,17 @@ func BFS(sc *Scenario, mf MonitorFactory, lim Limits) *Result {
 					si := frontier[fi]
 					w := states[si].live
 					states[si].live = nil
-					if w == nil || fi%32 == 0 {
+					if w == nil || fi%32 == 0 || lim.Determinism {
 						path := pathOf(states, si)
 						wr, _ := Replay(sc, mf, path)
 						lr++
-						if k := wr.Key(false); k != states[si].key {
+						if k := wr.Key(false); k != states[si].key || (lim.Determinism && wr.Out != states[si].out) {
+							if lim.Determinism {
+								hmu.Lock()
+								detViol = append(detViol, &Found{V: &Violation{"C19", "same-inputs-same-outputs", fmt.Sprintf("re-executing the path of state %d (depth %d) on fresh objects gave a different state or different outputs (key equal: %v, outputs equal: %v)", si, len(path), k == states[si].key, wr.Out == states[si].out)}, Scenario: sc.Name, Path: path})
+								hmu.Unlock()
+								continue
+							}
 							hmu.Lock()
 							harnessErr = fmt.Sprintf("divergence while replaying state %d (depth %d): key mismatch", si, len(path))
 							hmu.Unlock()
@@ -378,6 +391,10 @@ func BFS(sc *Scenario, mf MonitorFactory, lim Limits) *Result {
 		wg.Wait()
 		res.Replays += replays
 		res.PrefixChecks += prefixChecks
+		for _, f := range detViol {
+			addFound(res, lim, f)
+		}
+		detViol = nil
 		if harnessErr != "" {
 			res.HarnessErr = harnessErr
 			res.Exhaustive = false
@@ -444,6 +461,16 @@ func BFS(sc *Scenario, mf MonitorFactory, lim Limits) *Result {
 			res.Caps = append(res.Caps, "stopped after reaching the violation cap")
 			break
 		}
+	}
+	if lim.Determinism {
+		h := sha256.New()
+		for i := range states {
+			h.Write(states[i].key[:])
+			var b [8]byte
+			binary.LittleEndian.PutUint64(b[:], states[i].out)
+			h.Write(b[:])
+		}
+		res.Digest = fmt.Sprintf("%x", h.Sum(nil)[:12])
 	}
 	if len(res.Samples) == 0 && len(states) > 1 {
 		res.Samples = append(res.Samples, Describe(sc, mf, pathOf(states, int32(len(states)-1))))
